@@ -26,6 +26,7 @@ func ConcTraces(w *vt.W, rng *rand.Rand, n int) {
 		cs := 1 + rng.Intn(4)
 		np := rng.Intn(4*cs + 2)
 		jitter := rng.Intn(4) // 0: none, else chance of yielding/sleeping in hooks
+		vt.Beat(fmt.Sprintf("un-gated run %d: chunk size %d, %d pushes, then Finalise and Pull to the end", id, cs, np))
 		runConcTrace(w, id, cs, np, jitter, rng.Int63())
 	}
 }
